@@ -199,8 +199,29 @@ func VerifC16_CmdPruneConfigured_E() {
 	opt.n = 1
 	opt.yes = true
 	opt.store = spellings[vChoose("spelling", len(spellings))]
-	err := runPrune(context.Background(), opt, []string{root + "/keep.caibx"})
+	args := []string{root + "/keep.caibx"}
+	damaged := vChoose("second-index", 3) // 0 none, 1 truncated inside its table, 2 missing
+	if damaged == 1 {
+		whole, _ := os.ReadFile(root + "/keep.caibx")
+		os.WriteFile(root+"/cut.caibx", whole[:len(whole)-30], 0644)
+		args = append(args, root+"/cut.caibx")
+	} else if damaged == 2 {
+		args = append(args, root+"/nosuch.caibx")
+	}
+	err := runPrune(context.Background(), opt, args)
 	vCover("prune-returned")
+	exists0 := func(c *desync.Chunk, ext string) bool {
+		id := c.ID()
+		s := id.String()
+		_, e := os.Stat(root + "/store/" + s[0:4] + "/" + s + ext)
+		return e == nil
+	}
+	if damaged != 0 {
+		// an index that cannot be read means the reference set is unknown: nothing may be deleted
+		vAssert(err != nil, "prune reported success although one of its index files could not be read")
+		vAssert(exists0(keep, "") && exists0(drop, "") && exists0(other, ".cacnk"), "prune deleted chunks although one of its index files could not be read")
+		return
+	}
 	vAssert(err == nil, "prune of a healthy local store failed")
 	exists := func(c *desync.Chunk, ext string) bool {
 		id := c.ID()
@@ -301,5 +322,80 @@ func VerifC17_CmdIndexNames_E() {
 	vAssert(err == nil, "the index file named on the command line could not be read")
 	if err == nil {
 		vAssert(len(idx.Chunks) == 1 && idx.Chunks[0].Size == 3, "another index file than the one named on the command line was read")
+	}
+}
+
+// VerifC15_CmdIndexServerAuth_E: the `desync index-server` command (runIndexServer) with the
+// authorization value from --authorization or from DESYNC_HTTP_AUTH: the handler it registered
+// answers 401 without the value (GET and, writable, PUT) and serves with it.
+func VerifC15_CmdIndexServerAuth_E() {
+	root := vTempDir()
+	os.Mkdir(root+"/idx", 0755)
+	idx := desync.Index{Index: desync.FormatIndex{FeatureFlags: desync.CaFormatSHA512256, ChunkSizeMin: 1, ChunkSizeAvg: 1, ChunkSizeMax: 1}}
+	f, _ := os.Create(root + "/idx/a.caibx")
+	idx.WriteTo(f)
+	f.Close()
+	var opt indexServerOptions
+	addStoreOptions(&opt.cmdStoreOptions, pflag.NewFlagSet("verif", pflag.ContinueOnError))
+	opt.n = 1
+	opt.store = root + "/idx"
+	opt.listenAddresses = []string{":0"}
+	opt.writable = vChoose("writable", 2) == 1
+	if vChoose("secret-from", 2) == 0 {
+		opt.auth = "secret"
+	} else {
+		os.Setenv("DESYNC_HTTP_AUTH", "secret")
+	}
+	http.DefaultServeMux = http.NewServeMux()
+	err := runIndexServer(context.Background(), opt, nil)
+	vCover("server-returned")
+	vAssert(err == nil, "index-server failed to start over a local directory")
+	for k, hdr := range []string{"", "wrong", "secret"} {
+		w := &verifRecorderRW{}
+		r := &http.Request{Method: "GET", URL: &url.URL{Path: "/a.caibx"}, Header: http.Header{}, Body: ioutil.NopCloser(bytes.NewReader(nil)), RequestURI: "/a.caibx"}
+		if hdr != "" {
+			r.Header["Authorization"] = []string{hdr}
+		}
+		http.DefaultServeMux.ServeHTTP(w, r)
+		if k < 2 {
+			vAssert(w.code == 401, "the index server started by the CLI serves a request that does not carry the configured authorization value")
+		} else {
+			vAssert(w.code == 200, "the index server started by the CLI refuses the configured authorization value")
+		}
+	}
+	var body bytes.Buffer
+	idx.WriteTo(&body)
+	w := &verifRecorderRW{}
+	r := &http.Request{Method: "PUT", URL: &url.URL{Path: "/new.caibx"}, Header: http.Header{}, Body: ioutil.NopCloser(bytes.NewReader(body.Bytes())), RequestURI: "/new.caibx"}
+	http.DefaultServeMux.ServeHTTP(w, r)
+	_, serr := os.Stat(root + "/idx/new.caibx")
+	vAssert(w.code == 401 && os.IsNotExist(serr), "the index server started by the CLI accepted an upload without the authorization value")
+}
+
+// VerifC17_CmdVerifyIndexEmpty_E: the verify-index command on an empty index (what make writes
+// for an empty blob): only an empty file matches it, for every -n.
+func VerifC17_CmdVerifyIndexEmpty_E() {
+	dir := vTempDir()
+	idx := desync.Index{Index: desync.FormatIndex{FeatureFlags: desync.CaFormatSHA512256, ChunkSizeMin: 16384, ChunkSizeAvg: 65536, ChunkSizeMax: 262144}}
+	f, _ := os.Create(dir + "/empty.caibx")
+	idx.WriteTo(f)
+	f.Close()
+	size := vChoose("file-size", 3) // 0, 1 byte, file missing
+	switch size {
+	case 0:
+		os.WriteFile(dir+"/blob", nil, 0644)
+	case 1:
+		os.WriteFile(dir+"/blob", []byte{7}, 0644)
+	}
+	var opt verifyIndexOptions
+	addStoreOptions(&opt.cmdStoreOptions, pflag.NewFlagSet("verif", pflag.ContinueOnError))
+	opt.n = []int{1, 2, 10, 64}[vChoose("n", 4)]
+	vSchedFixed(true)
+	err := runVerifyIndex(context.Background(), opt, []string{dir + "/empty.caibx", dir + "/blob"})
+	vCover("returned")
+	if size == 0 {
+		vAssert(err == nil, "an empty file does not match the empty index")
+	} else {
+		vAssert(err != nil, "verify-index accepted a non-empty or missing file against an empty index")
 	}
 }
